@@ -226,7 +226,9 @@ Inductive qop :=
 | QFault (f : qfault)
 | QSync
 | QSyncIndep (id : Z)
-| QRestart.                   (* controller restart: caches synced, then Store.Recover *)
+| QRestart                    (* controller restart: caches synced, then Store.Recover *)
+| QTouch (id : Z).            (* an update that changes nothing the controller looks at: e.g. the user
+                                 deletes the Job and a finalizer holds it (deletionTimestamp set) *)
 
 Fixpoint adv_cache (n : nat) (w : qworld) : qworld :=
   match n, qc_pending w with
@@ -287,6 +289,14 @@ Definition qstep (w : qworld) (o : qop) : qworld * list qaction * bool * bool :=
       (mkQW (qa_jobs w1) (qa_rv w1) (qc_jobs w1) [] [] O
             (Z.of_nat (List.length (filter (fun j => q_owned j && is_active j) (qc_jobs w1))))
             (q_max w1) (q_clock w1) (q_faults w1) false, [], true, false)
+  | QTouch id =>
+      match find_job id (qa_jobs w) with
+      | Some a =>
+          let a'' := mkQJ (q_id a) (q_owned a) (q_created a) (q_policy a) (q_start_after a)
+                          (q_started a) (q_terminal a) (q_adm_err a) (qa_rv w + 1) in
+          (with_api w (set_job a'' (qa_jobs w)) (EUpd a a'') (q_faults w) (q_counter w), [], true, false)
+      | None => (w, [], true, false)
+      end
   end.
 
 Definition init_qworld (now : Z) (m : option Z) : qworld := mkQW [] 1 [] [] [] O 0 m now [] false.
